@@ -1447,6 +1447,30 @@ func ruleC03e(c *Ctx) {
 			ks = append(ks, k)
 		}
 		sort.Ints(ks)
+		// one classification, one counter: two counters are never incremented in one and the same basic block (no
+		// test of the segment lies between the two increments, so the same segment is counted as both kinds)
+		for _, a := range ks {
+			for _, b := range ks {
+				if a >= b {
+					continue
+				}
+				var twice *ssa.BinOp
+				for ia := range incs[a] {
+					for ib := range incs[b] {
+						if ia.Block() == ib.Block() && (twice == nil || ib.Pos() < twice.Pos()) {
+							twice = ib
+						}
+					}
+				}
+				n++
+				construct := "no segment is counted for " + resName(a) + " and for " + resName(b) + " by the same classification"
+				if twice == nil {
+					c.ok(name, construct, p.pos(fn.Pos()), "no basic block increments both counters")
+				} else {
+					c.bad(name, construct, p.ipos(twice), "both counters are incremented for one classification of the segment: it counts as a literal and as a variable, ties with a literal segment on the first ranking key and wins on the second although it is less specific")
+				}
+			}
+		}
 		for _, a := range ks {
 			for _, b := range ks {
 				if a == b {
